@@ -1,7 +1,8 @@
 #!/bin/bash
 # extract.sh <repo_dir> <out_dir> [cargo feature args...]
 # Runs the mirfacts driver over <repo_dir> (lib target) with a fresh target dir;
-# writes <out_dir>/narsese.json.  Nothing of the repo is executed.
+# writes <out_dir>/narsese.json.  Nothing of the repo is executed.  The crate is type-checked with --cfg arcj137442_narsese_rs_verif,
+# which compiles the repo's verification hooks in (one expansion of each inline-Narsese macro, see MANIFEST.hooks).
 set -u
 REPO="$1"; OUT="$2"; shift 2
 DRV=/verif/engines/mirfacts/target/release/mirfacts
@@ -12,7 +13,7 @@ trap 'rm -rf "$TGT"' EXIT
 mkdir -p "$OUT"
 cd "$REPO" || exit 2
 CARGO_NET_OFFLINE=true LD_LIBRARY_PATH="$SYSROOT/lib" \
-RUSTFLAGS="-Zmir-opt-level=0 -Coverflow-checks=on -Awarnings" \
+RUSTFLAGS="-Zmir-opt-level=0 -Coverflow-checks=on -Awarnings --cfg arcj137442_narsese_rs_verif" \
 RUSTC_WORKSPACE_WRAPPER="$DRV" MIRFACTS_OUT="$OUT" CARGO_TARGET_DIR="$TGT" \
 cargo +nightly check --offline --lib "$@" >"$OUT/cargo.log" 2>&1
 rc=$?
